@@ -1,0 +1,46 @@
+//go:build verif
+
+// Contracts for package smtp_downstream (checked by /verif/govc; comment-only file).
+package smtp_downstream
+
+//@ import gosmtp "github.com/emersion/go-smtp"
+//@ import smtpconn "github.com/foxcpp/maddy/internal/smtpconn"
+
+// ---- C09: per-recipient results of the LMTP next hop ----
+//@ func (*Downstream).moduleError
+//@   prop C09
+//@   ensures (result == nil) == (err == nil)
+// AddRcpt records the address it was given iff the next hop accepted it.
+//@ func (*delivery).AddRcpt
+//@   prop C09
+//@   requires d != nil && d.conn != nil && d.conn.cl != nil && d.u != nil
+//@   modifies d.rcpts, d.conn.rcpts, *d.conn.cl, gosmtp.SMTPError.Code, gosmtp.SMTPError.EnhancedCode
+//@   assert-call (*smtpconn.C).Rcpt : $to == rcptTo && $c == d.conn
+//@   ensures result == nil ==> len(d.rcpts) == old(len(d.rcpts)) + 1 && d.rcpts[len(d.rcpts)-1] == rcptTo
+//@   ensures result == nil ==> (forall k int :: 0 <= k && k < old(len(d.rcpts)) ==> d.rcpts[k] == old(d.rcpts)[k])
+//@   ensures result != nil ==> d.rcpts == old(d.rcpts)
+// The per-recipient callback: the k-th reply of the next hop is reported under the k-th recorded address (the
+// address AddRcpt was given, not the wire form go-smtp passes in).
+//@ func (*lmtpDelivery).BodyNonAtomic$1
+//@   prop C09
+//@   requires d != nil && d.delivery != nil && sc != nil && 0 <= rcptIndx && rcptIndx < 4611686018427387904
+//@   modifies gStCnt, rcptIndx
+//@   ensures rcptIndx == old(rcptIndx) + 1
+//@   ensures old(rcptIndx) < len(d.rcpts) ==> gStCnt == store(old(gStCnt), d.rcpts[old(rcptIndx)], old(gStCnt)[d.rcpts[old(rcptIndx)]] + 1)
+// What BodyNonAtomic assumes about LMTPData given that the callback is the closure above (go-smtp: "callback will
+// be called for each successful Rcpt call done before in the same order", all of them when no error is returned;
+// the connection is fresh for this transaction, so those are the recorded recipients).
+//@ extern func (*lmtpDelivery).BodyNonAtomic#LMTPData$call(c *smtpconn.C, ctx context.Context, hdr textproto.Header, body io.Reader, statusCb func(string, *gosmtp.SMTPError)) error
+//@   modifies gStCnt, rcptIndx
+//@   ensures 0 <= rcptIndx && rcptIndx <= len(d.rcpts) && (result == nil ==> rcptIndx == len(d.rcpts))
+//@   ensures forall r string :: gStCnt[r] == old(gStCnt)[r] + occ(d.rcpts, rcptIndx, r)
+// BodyNonAtomic: on every path (body cannot be opened, transmission fails midway, or every reply arrives) exactly
+// one status per recorded recipient, under the recorded address.
+//@ func (*lmtpDelivery).BodyNonAtomic
+//@   prop C09
+//@   nopanic
+//@   requires d != nil && d.delivery != nil && d.conn != nil && d.u != nil && sc != nil && body != nil
+//@   modifies *
+//@   ensures forall r string :: gStCnt[r] == old(gStCnt)[r] + occ(old(d.rcpts), len(old(d.rcpts)), r)
+//@   loop 0 invariant d.rcpts == old(d.rcpts) && (forall r string :: gStCnt[r] == old(gStCnt)[r] + occ(old(d.rcpts), rangeindex + 1, r))
+//@   loop 1 invariant d.rcpts == old(d.rcpts) && (forall r string :: gStCnt[r] == old(gStCnt)[r] + occ(old(d.rcpts), rcptIndx + rangeindex + 1, r))
